@@ -12,7 +12,8 @@ import copy
 import json
 
 from ..common import MachineryError, Verdict, require, scratch, seed
-from ..proto import cfg_text, default_corpus, full_corpus, prepare_world, run_drivers_parallel, tlc_proto
+from ..proto import cfg_text, default_corpus, full_corpus, prepare_world, run_drivers_parallel, tlc_given, tlc_proto
+from ..randobj import Gen
 from ..corpus import library
 from .. import common
 
@@ -104,8 +105,42 @@ def run(tier, corrupt=False):
                     p = next(q for q in progs if q["name"] == r["prog"])
                     if p["kind"] == "packet" and (o.get("family") != p["family"] or o.get("action") != p["action"]):
                         v.violation(f"{r['prog']} family/action", f"reports {o.get('family')}/{o.get('action')}, declared {p['family']}/{p['action']}", case)
+        # ---- pattern V: random larger objects (arrays <= 6, strings <= 12 arbitrary Unicode, random integers), judged by TLC in given-object mode
+        import random
+        rng = random.Random(seed() * 7919 + 2)
+        per = 8 if tier == "quick" else 40
+        nv = 0
+        with scratch("c02v-") as wt:
+            src, accepted, rejected = prepare_world(wt, progs, types)
+            ctypes = {**types, **{p["name"]: {"kind": "struct", "dir": p["dir"], "code": p["code"]} for p in progs if p["kind"] == "struct"}}
+            gen = Gen(ctypes, rng)
+            idx = {p["name"]: i + 1 for i, p in enumerate(progs)}
+            vcases = []
+            for p in accepted:
+                for _ in range(per):
+                    vcases.append({"p": idx[p["name"]], "obj": gen.obj(p["code"], p["name"]), "san0": rng.random() < 0.3})
+            model = tlc_given(tmp, progs, types, vcases, "given")
+            dcases = [{"kind": "ser", "prog": progs[c["p"] - 1]["name"], "san0": c["san0"], "fuel": -1, "obj": c["obj"], "salt": i} for i, c in enumerate(vcases)]
+            imp, results = run_drivers_parallel(src, wt, accepted, types, dcases)
+            if imp:
+                v.violation("generated package not importable", imp.strip().splitlines()[-1], {"trace": imp})
+                results = []
+            for c, m, o in zip(vcases, model, results):
+                nv += 1
+                if "harness_error" in o:
+                    raise MachineryError(o["harness_error"])
+                prog = progs[c["p"] - 1]["name"]
+                key = f"{prog} (random) obj={json.dumps(c['obj'], sort_keys=True)[:300]} san0={c['san0']}"
+                case = {"prog": prog, "san0": c["san0"], "obj": c["obj"], "model": {"exc": m["exc"], "bytes": m["bytes"]}, "observed": {k: o.get(k) for k in ("ctor_exc", "exc", "bytes", "san_end")}}
+                if o["ctor_exc"]:
+                    v.violation(f"{prog} (random) constructor {o['ctor_exc'][:60]}", f"object cannot be constructed: {o['ctor_exc']}", case)
+                elif (o["exc"] != "") != (m["exc"] != ""):
+                    v.violation(key, f"serialize {'raised ' + o['exc'] if o['exc'] else 'completed'}; the XML semantics {'refuse the object (' + m['exc'] + ')' if m['exc'] else 'give a complete serialization'}", case)
+                elif not m["exc"] and o["bytes"] != m["bytes"]:
+                    v.violation(key, f"bytes differ from the wire format the XML prescribes: got {o['bytes']}, expected {m['bytes']}", case)
     cov = dict(stats)
-    cov.update({"traces_validated_against_impl": nchecked, "programs": len(progs), "behaviours_from_tlc": len(recs),
+    cov["random_objects_validated"] = nv
+    cov.update({"traces_validated_against_impl": nchecked + nv, "programs": len(progs), "behaviours_from_tlc": len(recs),
                 "behaviours_per_program": by_prog,
                 "samples": [{"prog": recs[0]["prog"], "obj": recs[0]["obj"], "bytes": recs[0]["bytes"]},
                             {"prog": recs[-1]["prog"], "obj": recs[-1]["obj"], "bytes": recs[-1]["bytes"]}],
